@@ -267,8 +267,20 @@ def impl_lines_x(case, res):
     return lines
 
 
-def compare_lines(il, coq_out):
+def cut_at_reraise(res):
+    """index of the first step that joins a thread which died with an exception (the re-raise
+    path: what the garbage collector does afterwards is not modelled for the composed
+    executors), or None"""
+    for k, (en, pick, lab) in enumerate(res["trace"]):
+        if lab[0] == "tjoin" and res["ents"].get(lab[1], [None, None])[1]:
+            return k
+    return None
+
+
+def compare_lines(il, coq_out, cut=None):
     ml = coq_out.split(";")
+    if cut is not None:
+        il, ml = il[:cut + 1], ml[:cut + 1]
     for k, (a, b) in enumerate(zip(il, ml)):
         if a != b:
             return {"kind": "diverge", "step": k, "impl": a, "model": b, "prefix": il[max(0, k - 6):k]}
